@@ -8,7 +8,7 @@ set_option linter.unusedSimpArgs false
 namespace Note
 
 macro "samex_tac" : tactic => `(tactic| (
-  refine ⟨fun _ => ?_, fun _ => ?_, ?_, ?_, ?_⟩ <;> simp))
+  refine ⟨fun _ => ?_, fun _ => ?_, ?_, ?_⟩ <;> simp))
 
 theorem XClaim.actor {s s' : State} {e : Event} (hA : InvA s) (hN : InvN s) (hX : InvX s)
     (hs : Note.step s e = .ok s') (a : Tid) (ha : e.actor = some a) : XClaim s' (s'.pc a) := by
@@ -23,68 +23,23 @@ theorem XClaim.actor {s s' : State} {e : Event} (hA : InvA s) (hN : InvN s) (hX 
     childWakeNext_pc, freeLoopStart_pc, enterChild_pc, leave_pc, addUser_pc, markCalled_pc,
     markFreeing_pc, setAfter_pc, pushObs_pc, publish_pc, delUser_pc]))
   all_goals (try (simp [XClaim, DKX]; done))
-  all_goals (try (exact XClaim.afterDeadlinePc hN (by assumption) hc))
+  all_goals (try (exact XClaim.afterDeadlinePc hN hX (by assumption) hc))
   all_goals (try (refine (XClaim.same (s := s) ?_ _).mpr ?_; (· samex_tac)))
   all_goals (try (simp_all [XClaim, NKX]; done))
   all_goals (try (exact XClaim.childReturnPc hc))
   all_goals (try (exact XClaim.childWakeNextPc hc))
   all_goals (try (exact XClaim.freeLoopStartPc _ _ _ _))
-  all_goals (try (exact XClaim.afterNotifyPc hN (by assumption) hc))
+  all_goals (try (exact XClaim.afterNotifyPc hN hX (by assumption) hc))
   -- call nsync_note_expiry
   all_goals (try (exact (by assumption : s.Live _).2.1))
   -- call nsync_note_new with a parent
   all_goals (try (
     intro p hp; cases hp
     exact ⟨(by assumption : s.Live _).2.1, (by assumption : s.Live _).1⟩))
-  -- nsync_note_new, parent not notified, parent's expiry is smaller
-  · rename_i n p dl _ hpos hlt _ _ _ _
-    simp only [XClaim, NewPos.early, if_true] at hc
-    obtain ⟨h1, h2, h3⟩ := hc
-    have hnp : ¬ s.Notified p := fun h => ntime_of_notified h hpos
-    have hbp : s.bornNotified p = false := by
-      cases hb : s.bornNotified p with
-      | false => rfl
-      | true => exact absurd (hN.born p hb).1 hnp
-    have hep : (s.notes p).ntime = s.pathMin p := by
-      rw [← hX.min p (h3 p rfl).1 hbp]
-      unfold NoteRec.ntime
-      split
-      · next hf => exact absurd (Or.inl hf) hnp
-      · rfl
-    right
-    simp only [setPc_notes, link_f_expiry, setExpiry_f_expiry, if_true, setPc_pathMin,
-      link_pathMin, setExpiry_pathMin]
-    rw [h1, hep]
-    simp only [State.minOf, Dl.min_eq]
-    rw [hep] at hlt
-    rw [if_pos hlt]
-  -- … parent's expiry is not smaller
-  · rename_i n p dl _ hpos hlt _ _ _ _
-    simp only [XClaim, NewPos.early, if_true] at hc ⊢
-    obtain ⟨h1, h2, h3⟩ := hc
-    have hnp : ¬ s.Notified p := fun h => ntime_of_notified h hpos
-    have hbp : s.bornNotified p = false := by
-      cases hb : s.bornNotified p with
-      | false => rfl
-      | true => exact absurd (hN.born p hb).1 hnp
-    have hep : (s.notes p).ntime = s.pathMin p := by
-      rw [← hX.min p (h3 p rfl).1 hbp]
-      unfold NoteRec.ntime
-      split
-      · next hf => exact absurd (Or.inl hf) hnp
-      · rfl
-    right
-    rw [(hcN.2 rfl).2, h1]
-    simp only [State.minOf, Dl.min_eq]
-    rw [hep] at hlt
-    simp [hlt]
-  -- … parent notified
-  · left; simp
-  · left; simp
   -- malloc
   · rename_i k hfresh
     show NewX _ k _ _
-    refine ⟨?_, by simpa using hX.unalloc k hfresh, ?_⟩
+    refine ⟨?_, ?_⟩
     · rename_i par _ _ _
       cases par with
       | none => simp [State.minOf]
@@ -98,59 +53,38 @@ theorem XClaim.actor {s s' : State} {e : Event} (hA : InvA s) (hN : InvN s) (hX 
 theorem step_invX {s s' : State} {e : Event} (hA : InvA s) (hN : InvN s) (hX : InvX s)
     (hs : Note.step s e = .ok s') : InvX s' := by
   have hst := step_stable hs
-  refine ⟨?_, ?_, ?_⟩
+  refine ⟨?_, ?_⟩
   · intro t
     by_cases ha : e.actor = some t
     · exact XClaim.actor hA hN hX hs t ha
     · rw [step_pc_other hs t ha]; exact XClaim.other hA hX hs t ha
-  · intro n hp hb
-    have hb0 : s.bornNotified n = false := by
-      cases h : s.bornNotified n with
-      | false => rfl
-      | true => rw [hst.born n h] at hb; cases hb
-    rcases step_published hs with hq | ⟨a, m, par, ha, hpa, _, hq⟩
-    · rw [hq] at hp
-      have hn := hA.published n hp
+  · intro n hp
+    -- a published note is not being created, so its expiry time does not change
+    have hkeep : s.published n = true → (s'.notes n).expiry = s'.pathMin n := by
+      intro hp0
+      have hn := hA.published n hp0
       rw [(hst.ghost n hn).2.2]
-      rcases step_expiry hs n hn with h | ⟨a, p, dl, _, hpc, _, _⟩
-      · rw [h]; exact hX.min n hp hb0
-      · have := (hA.creating a n (by rw [hpc]; simp)).2
-        rw [hp] at this; cases this
+      rcases step_expiry hs n hn with h | ⟨a, p, dl, _, hcr, _, _⟩
+      · rw [h]; exact hX.min n hp0
+      · have := (hA.creating a n hcr).2
+        rw [hp0] at this; cases this
+    rcases step_published hs with hq | ⟨a, m, par, ha, hpa, _, hq⟩
+    · rw [hq] at hp; exact hkeep hp
     · rw [hq, upd_apply] at hp
       split at hp
       · next hnm =>
         subst hnm
         have hc := hX.claim a
         rw [hpa] at hc
-        have hn := (hA.creating a n (by rw [hpa]; simp)).1
+        have hcr : (s.pc a).creating = some n := by rw [hpa]; simp
+        have hn := (hA.creating a n hcr).1
         rw [(hst.ghost n hn).2.2]
-        rcases hc with hc | hc
-        · rw [hb0] at hc; cases hc
-        · rcases step_expiry hs n hn with h | ⟨a', p, dl, ha', hpc, _, _⟩
-          · rw [h]; exact hc
-          · rw [ha] at ha'
-            cases ha'
-            rw [hpa] at hpc; cases hpc
-      · have hn := hA.published n hp
-        rw [(hst.ghost n hn).2.2]
-        rcases step_expiry hs n hn with h | ⟨a', p, dl, _, hpc, _, _⟩
-        · rw [h]; exact hX.min n hp hb0
-        · have := (hA.creating a' n (by rw [hpc]; simp)).2
-          rw [hp] at this; cases this
-  · intro n hn
-    have h0 : (s.notes n).allocated = false := by
-      cases h : (s.notes n).allocated with
-      | false => rfl
-      | true => rw [hst.alloc n h] at hn; cases hn
-    rcases step_born hs with h | ⟨a, m, _, hca, h⟩
-    · rw [h]; exact hX.unalloc n h0
-    · rw [h, upd_apply]
-      split
-      · next hnm =>
-        subst hnm
-        have := (hA.creating a n hca).1
-        rw [h0] at this; cases this
-      · exact hX.unalloc n h0
+        rcases step_expiry hs n hn with h | ⟨a', p, dl, ha', _, hpc, _⟩
+        · rw [h]; exact hc
+        · rw [ha] at ha'
+          cases ha'
+          rcases hpc with ⟨_, _, hpc⟩ | ⟨_, _, hpc⟩ <;> (rw [hpa] at hpc; cases hpc)
+      · exact hkeep hp
 
 /-- All four invariant families hold in every reachable state. -/
 theorem Reachable.inv {s : State} (h : Reachable s) : InvA s ∧ InvN s ∧ InvS s ∧ InvX s := by
